@@ -2,6 +2,7 @@ package fasthttp
 
 import (
 	"io"
+	"net"
 	"time"
 )
 
@@ -44,8 +45,20 @@ func vhC16LateHandler() {
 	secondAt := [...]time.Duration{0, 220}[vChoose("secondRequestAt", 2)] * time.Millisecond
 	secondTakes := [...]time.Duration{0, 50}[vChoose("secondHandlerTakes", 2)] * time.Millisecond
 	start := time.Now()
+	hijackMode := vChoose("lateHandlerHijacks", 3) // 0 no, 1 Hijack, 2 Hijack + HijackSetNoResponse
+	hijackRan := false
 	inner := func(ctx *RequestCtx) {
 		if string(ctx.Path()) == "/slow" {
+			if hijackMode > 0 {
+				// asked for before the timeout fires; the request is then abandoned
+				ctx.Hijack(func(c net.Conn) {
+					hijackRan = true
+					c.Write([]byte("HIJACKED")) //nolint:errcheck
+				})
+				if hijackMode == 2 {
+					ctx.HijackSetNoResponse(true)
+				}
+			}
 			time.Sleep(late1 - time.Since(start))
 			ctx.SetStatusCode(201)
 			ctx.SetBodyString("late-" + xs)
@@ -87,6 +100,6 @@ func vhC16LateHandler() {
 			vAssert("second-request-served-normally", rs[1].status == 200 && rs[1].body == "fast-/two" && rs[1].close)
 		}
 	}
-	leaked := vcContains(c.wrote, "X-Late") || vcContains(c.wrote, "late-") || vcContains(c.wrote, "scribbled")
+	leaked := vcContains(c.wrote, "X-Late") || vcContains(c.wrote, "late-") || vcContains(c.wrote, "scribbled") || vcContains(c.wrote, "HIJACKED") || hijackRan
 	vAssert("nothing-written-later-reaches-the-connection", !leaked)
 }
